@@ -443,27 +443,29 @@ def msgkind(ctx):
         out.append(Inst("MSGKIND", "%s:kinds" % name, ok, body.site(0), "enqueues %s" % got, "expected %s" % w))
         if len(set(chans)) != len(chans):
             out.append(Inst("MSGKIND", "%s:channel-shared" % name, False, body.site(0), "two messages share one oneshot channel: %s" % chans, "one channel per message"))
-    # publish: kind per QoS branch
+    # publish: kind per QoS branch (whichever `match` on the QoS the enqueue sits under: the QoS may be matched more
+    # than once, e.g. once to allocate the identifier and once for the exchange)
     pb = ctx.handle_ops()["publish"]
-    qsw = None
-    for b in sorted(pb.reach):
-        si = pb.switch_info(b)
-        if si and si["kind"] == "discr" and si.get("adt") == QOS:
-            qsw = (b, si)
-            break
-    if qsw is None:
-        raise AnchorLost("match on QoS in ContextHandle::publish")
-    b, si = qsw
+    b = None
     per = {}
     for e in [e for e in ctx.effects(pb) if e.kind == "Enqueue"]:
         agg, _ = _agg_of(pb, e.term["ops"][1])
-        for v, s_ in si["targets"]:
-            if pb.dominates(s_, e.inner_bb):
-                per.setdefault(si["variants"][v], []).append(agg["variant"] if agg else "?")
-        if si["otherwise"] is not None and pb.dominates(si["otherwise"], e.inner_bb) and not any(pb.dominates(s_, e.inner_bb) for _, s_ in si["targets"]):
-            listed = {si["variants"][v] for v, _ in si["targets"]}
-            rest = [x for x in si["variants"].values() if x not in listed]
-            per.setdefault(rest[0] if len(rest) == 1 else "otherwise", []).append(agg["variant"] if agg else "?")
+        q = None
+        for (d, s_) in dominating_edges(pb, e.inner_bb):
+            si = pb.switch_info(d)
+            if not si or si["kind"] != "discr" or si.get("adt") != QOS:
+                continue
+            vals = pb.edge_value(d, s_)
+            names = [si["variants"].get(v) for v in vals if v != "otherwise"]
+            if "otherwise" in vals:
+                listed = {si["variants"][v] for v, _ in si["targets"]}
+                names = [x for x in si["variants"].values() if x not in listed]
+            if len(names) == 1:
+                q = names[0]
+                b = d
+        per.setdefault(q or "otherwise", []).append(agg["variant"] if agg else "?")
+    if b is None:
+        raise AnchorLost("match on QoS in ContextHandle::publish")
     wantq = {"AtMostOnce": ["FireAndForget"], "AtLeastOnce": ["AwaitAck"], "ExactlyOnce": ["AwaitAck", "AwaitAck"]}
     out.append(Inst("MSGKIND", "publish:per-qos", per == wantq, pb.site(b), "per QoS branch: %s" % per, "%s" % wantq))
     return out
